@@ -13,6 +13,11 @@ GENERIC_TRUSTED = [
 
 REGISTRY = {}
 MANIFEST_TEXT = {}
+# props/ACCEPTED lists the properties whose checks are registered in
+# MANIFEST.json (reviewed, pass on the unchanged tree).  Developments still
+# being built are runnable with ./check but not claimed.
+_acc = os.path.join(ROOT, "props", "ACCEPTED")
+ACCEPTED = set(open(_acc).read().split()) if os.path.exists(_acc) else None
 for _f in sorted(glob.glob(os.path.join(ROOT, "props", "C*.json"))):
     _c = json.load(open(_f))
     _p = os.path.basename(_f)[:-5]
